@@ -858,6 +858,28 @@ def gen_csv_cases(ctx, out, earlies):
         earlies.append((c, e))
         ctx.count('csv-layout:' + (args.get('data_structure') or 'guessed'))
     # scan_header alone on the same kinds of files is covered through from_csv; degenerate files:
+    # comment lines between the data rows, blank lines inside / at the end: the same graph is expected
+    for _ in range(80 if quick else 1200):
+        d = rng.choice(delims[:4])
+        numeric = rng.random() < 0.5
+        pool = sorted(rng.sample(range(0, 9), 4)) if numeric else ['a', 'b', 'cx', 'By', 'A2']
+        edges = rand_edges(rng, pool, rng.randint(2, 6), rng.choice(['none', 'small']))
+        rows = [d.join([str(a), str(b)] + ([] if w is None else [fmt_w(w)])) for a, b, w in edges]
+        kind = rng.choice(['comment-inside', 'blank-trailing', 'blank-inside', 'both'])
+        lines = list(rows)
+        cchar = rng.choice('#%')
+        if kind in ('comment-inside', 'both'):
+            lines.insert(rng.randint(1, len(lines)), cchar + ' a comment')
+        if kind in ('blank-inside', 'both'):
+            lines.insert(rng.randint(1, len(lines) - 1) if len(lines) > 1 else 1, '')
+        header = rng.choice([[], [cchar + ' header']])
+        text = '\n'.join(header + lines) + '\n' + ('\n' * rng.randint(1, 2) if kind in ('blank-trailing', 'both') else '')
+        args = {} if rng.random() < 0.5 else {'delimiter': d}
+        c, e = csv_case(text, None, args, rand_flags(rng), [(str(a), str(b), w) for a, b, w in edges], tag())
+        c.sig['rows_layout'] = kind
+        out.append(c)
+        earlies.append((c, e))
+        ctx.count('csv-' + kind)
     # more rows than n_scan = 100: only the first 100 are scanned
     for numeric in (True, False):
         for d in (',', ' '):
